@@ -8,7 +8,15 @@ MODULE = "GoNfsd.Props.C13"
 
 
 def run(ctx):
-    ok_go, ok_drv = seqlib.build_and_prove(ctx, MODULE)
+    ok_go, ok_drv = seqlib.build_and_prove(ctx, MODULE, extra_parts=["skeleton"])
+    if any(b.kind == "proof" for b in ctx.breaks):
+        import C03
+        for name, calls in C03.failing_slot_functions(ctx)[:3]:
+            ctx.add_violation("slot-before-lock:" + name,
+                              "fstxn.%s fetches the cached directory object without holding the directory's lock: calls in source order: %s" % (name, calls),
+                              {"input": {"function": "fstxn." + name, "calls_in_source_order": calls},
+                               "how": "regenerated table Gen/Skeleton.slotUses checked by Model/Skeleton.slotCheck (theorem the_directory_listed_is_the_locked_one): a request that waits for a "
+                                      "directory while more than 100 other inodes are used continues on an orphaned copy of it; a name is then listed twice or goes missing"})
     if ok_go:
         args = ["-seqs", "40", "-ops", "400", "-locks"] if ctx.tier == "thorough" else ["-seqs", "8", "-ops", "300", "-locks"]
         lines, tr = seqlib.run_seq(ctx, args)
